@@ -40,13 +40,6 @@ Definition do_get (mai : Z) (t : tbl) (h : gethow) (k : key) : value :=
   | _, _ => RawGet mai t k
   end.
 
-Fixpoint ipairs_from (mai : Z) (t : tbl) (i : Z) (fuel : nat) : list value :=
-  match fuel with
-  | O => []
-  | S f => let v := RawGetInt mai t i in
-           if is_nil v then [] else v :: ipairs_from mai t (i + 1) f
-  end.
-
 Definition kvs_eqb := list_eqb kv_eqb.
 Definition count_kv (p : key * value) (l : list (key * value)) : nat :=
   length (filter (kv_eqb p) l).
